@@ -34,6 +34,7 @@ type act struct {
 	Len        int    `json:"len"`
 	Op         string `json:"op"`
 	Depth      int    `json:"depth"`
+	Seen       bool   `json:"seen"`
 	Accept     bool   `json:"accept"`
 	PropAccept bool   `json:"propaccept"`
 	Path       []int  `json:"path"`
@@ -363,6 +364,15 @@ func runCase(c *vf.Ctx, L int, a act, rng *rand.Rand, off int) (result, string, 
 		_, _ = s.ms.W.DeliverRaw(from, s.v, s.fb)
 	}
 	data, from, note := s.forge(a, rng, off)
+	if a.Seen {
+		// the victim has already processed the genuine announcement
+		gfrom := s.o
+		if L > 0 {
+			gfrom = s.r1
+		}
+		_, _ = s.ms.W.DeliverRaw(gfrom, s.v, s.fa)
+		note += " (after the genuine announcement was processed)"
+	}
 	before := tableOf(s.v)
 	s.ms.W.Inflight = nil
 	res, err := s.ms.W.DeliverRaw(from, s.v, data)
@@ -445,11 +455,11 @@ func judge(c *vf.Ctx, a act, r result, note string, realLen int) {
 		c.Violation(vf.Key("panic", a.Op), fmt.Sprintf("%s at depth %d on a chain of %d: the router worker panicked", a.Op, a.Depth, realLen), desc, nil)
 	case r.Accepted && !a.PropAccept:
 		c.Violation(vf.Key("forgery-accepted", a.Op), fmt.Sprintf("%s at depth %d on a chain of %d (%s): the announcement was accepted, route via %v installed", a.Op, a.Depth, realLen, note, r.Path), desc, nil)
-	case !r.Accepted && a.PropAccept:
+	case !r.Accepted && a.PropAccept && !a.Seen:
 		c.Violation(vf.Key("genuine-rejected", a.Op), fmt.Sprintf("%s on a chain of %d: rejected (%s) although every named router signed its hop", a.Op, realLen, r.Err), desc, nil)
 	case !a.PropAccept && !r.Unchanged:
 		c.Violation(vf.Key("rejected-but-changed", a.Op), fmt.Sprintf("%s at depth %d on a chain of %d: rejected, but the routing table or the emitted frames changed", a.Op, a.Depth, realLen), desc, nil)
-	case a.PropAccept && (!sameInts(r.Path, a.Path) || r.NextHop != a.Via || !r.Genuine):
+	case r.Accepted && a.PropAccept && (!sameInts(r.Path, a.Path) || r.NextHop != a.Via || !r.Genuine):
 		c.Violation(vf.Key("wrong-route", a.Op), fmt.Sprintf("%s on a chain of %d: installed route names %v via %d (records genuine: %v), the attached records name %v via %d", a.Op, realLen, r.Path, r.NextHop, r.Genuine, a.Path, a.Via), desc, nil)
 	}
 }
@@ -496,11 +506,14 @@ func run(c *vf.Ctx) {
 		if a.Op == "mutbody" || a.Op == "mutsig" || a.Op == "outerflip" || a.Op == "outersigflip" || a.Op == "innerflip" || a.Op == "innersigflip" {
 			reps = 3
 		}
+		if a.Seen && a.Op == "mutbody" {
+			reps = 12
+		}
 		for k := 0; k < reps; k++ {
 			r, note, _ := runCase(c, a.Len, a, rng, -1)
 			judge(c, a, r, note, a.Len)
-			c.Distinct(fmt.Sprintf("%s|%d|%d|%s", a.Op, a.Depth, a.Len, note))
-			events = append(events, map[string]any{"ev": "case", "len": a.Len, "op": a.Op, "depth": a.Depth, "accepted": r.Accepted, "path": r.Path,
+			c.Distinct(fmt.Sprintf("%s|%d|%d|%v|%s", a.Op, a.Depth, a.Len, a.Seen, note))
+			events = append(events, map[string]any{"ev": "case", "len": a.Len, "op": a.Op, "depth": a.Depth, "seen": a.Seen, "accepted": r.Accepted, "path": r.Path,
 				"via": a.Via, "nexthop": r.NextHop, "unchanged": r.Unchanged, "genuine": r.Genuine})
 			if ci%17 == 0 && k == 0 {
 				c.Sample(map[string]any{"case": a, "detail": note, "observed": r})
@@ -543,7 +556,7 @@ func run(c *vf.Ctx) {
 	for k := 0; k < c.Pick(60, 600); k++ {
 		L := rng.Intn(maxL + 1)
 		op := ops[rng.Intn(len(ops))]
-		a := act{Name: "case", Len: L, Op: op}
+		a := act{Name: "case", Len: L, Op: op, Seen: rng.Intn(2) == 0 && op != "replayold"}
 		needDepth := map[string]bool{"innerflip": true, "innersigflip": true, "splicetime": true, "spliceorigin": true, "reattribute": true, "duprec": true, "reorder": true, "skipto": true}
 		if needDepth[op] {
 			if L < 2 || (op == "reorder" && L < 3) {
@@ -566,7 +579,7 @@ func run(c *vf.Ctx) {
 		if op == "wrongpeer" {
 			via = 8
 		}
-		events = append(events, map[string]any{"ev": "case", "len": L, "op": op, "depth": a.Depth, "accepted": r.Accepted, "path": r.Path,
+		events = append(events, map[string]any{"ev": "case", "len": L, "op": op, "depth": a.Depth, "seen": a.Seen, "accepted": r.Accepted, "path": r.Path,
 			"via": via, "nexthop": r.NextHop, "unchanged": r.Unchanged, "genuine": r.Genuine})
 		if r.Panic {
 			c.Violation(vf.Key("panic", op), fmt.Sprintf("%s on a chain of %d: worker panic", op, L), a, nil)
